@@ -462,12 +462,26 @@ func isConst(v ssa.Value) bool { _, ok := v.(*ssa.Const); return ok }
 // loopEnv binds phi names (and #i) for invariants at header h.
 func (vc *FnVC) loopEnv(h *ssa.BasicBlock, st *State) *Env {
 	env := vc.newEnv(st, vc.entry)
-	// source-level names of values defined before the loop (debug references in dominators)
-	for _, b := range vc.fn.Blocks {
-		if b == h || !b.Dominates(h) {
-			continue
-		}
+	// source-level names of values defined before the loop: walk the dominator chain from the
+	// entry block down to the header; in each block the phis (named by their variable) come
+	// first, then the debug references in instruction order; later bindings override earlier
+	var chain []*ssa.BasicBlock
+	for b := h.Idom(); b != nil; b = b.Idom() {
+		chain = append([]*ssa.BasicBlock{b}, chain...)
+	}
+	for _, b := range chain {
 		for _, ins := range b.Instrs {
+			if phi, ok := ins.(*ssa.Phi); ok {
+				if phi.Comment != "" && phi.Comment != "rangeindex" {
+					if v, defined := vc.vals[phi]; defined {
+						if _, isParam := vc.params[phi.Comment]; isParam {
+							delete(env.vars, phi.Comment)
+						}
+						env.vars[phi.Comment] = v
+					}
+				}
+				continue
+			}
 			d, ok := ins.(*ssa.DebugRef)
 			if !ok {
 				continue
@@ -486,10 +500,11 @@ func (vc *FnVC) loopEnv(h *ssa.BasicBlock, st *State) *Env {
 			if d.IsAddr {
 				if v.k == vTerm {
 					env.vars["&"+obj.Name()] = v
+					delete(env.vars, obj.Name())
 				}
 				continue
 			}
-			if _, isParam := vc.params[obj.Name()]; isParam {
+			if _, isVar := obj.(*types.Var); !isVar {
 				continue
 			}
 			env.vars[obj.Name()] = v
